@@ -59,6 +59,9 @@ def worker(case, led):
         a = full_state(bt, q, rng, order)
         if a is None:
             return
+        # the represented vector includes the scalar prefactor: real-time evolution keeps its modulus and phase, whatever its value
+        a.coeff = [1, 2.5 * np.exp(0.3j), -0.4, 1j][int(rng.integers(4))]
+        desc["prefactor"] = repr(a.coeff)
         v0 = T.dense_ttns(a, order)
         mask = S.sector_mask(model, q)
         for imag in (False, True):
